@@ -406,8 +406,90 @@ async fn rotation_boundary(mon: &Monitor, rng: &mut Rng) {
     let _ = std::fs::remove_dir_all(&dir);
 }
 
+/// Targeted at checkpoints taken while SEVERAL rotated logs exist (2-3 full log files since the last
+/// checkpoint): every step of that checkpoint - in particular each removal of an obsolete log - is a
+/// crash point, and what is left in the directory must still replay to a prefix.
+async fn checkpoint_over_rotated_logs(mon: &Monitor, rng: &mut Rng) {
+    let dir = scratch("c06c");
+    let rec = register(&dir, false, 0);
+    let Ok(m) = Mgr::new(config(&dir, FlushStrategy::Always)).await else {
+        unregister(&dir);
+        return;
+    };
+    let nkeys = rng.urange(4, 24);
+    let files = rng.urange(2, 3);
+    let prefill = 1000 * files + rng.urange(1, 60);
+    let mut ops: Vec<Op> = Vec::new();
+    let mut model = BTreeMap::new();
+    let mut opid = rng.next_u64() >> 20;
+    let mut records = 0usize;
+    while records < prefill {
+        opid += 1;
+        let op = gen_op(rng, opid, nkeys, &model, false);
+        records += match &op {
+            Op::Batch(ch) => ch.len() + 1,
+            _ => 1,
+        };
+        rec.in_op.store(ops.len(), Ordering::Relaxed);
+        let _ = run_op(&m, &op).await;
+        apply(&mut model, &op);
+        ops.push(op);
+        rec.in_op.store(ops.len(), Ordering::Relaxed);
+    }
+    rec.shots.lock().clear();
+    let rotated_before = capture(&dir).iter().filter(|(n, _)| is_wal(n) && n != "state.wal").count();
+    // now every hook is recorded: the checkpoint itself and a few operations after it
+    let rec2 = register(&dir, true, 1_000_000);
+    rec2.in_op.store(ops.len(), Ordering::Relaxed);
+    let mut pending: Vec<Shot> = Vec::new();
+    let tail = rng.urange(0, 4);
+    for t in 0..=tail {
+        opid += 1;
+        let op = if t == 0 { Op::Checkpoint } else { gen_op(rng, opid, nkeys, &model, true) };
+        ops.push(op.clone());
+        rec2.in_op.store(ops.len() - 1, Ordering::Relaxed);
+        let _ = run_op(&m, &op).await;
+        mon.count(&format!("ops.{}", op.kind()), 1);
+        apply(&mut model, &op);
+        rec2.in_op.store(ops.len(), Ordering::Relaxed);
+        rec2.shots.lock().push(Shot { hook: "after_ack".into(), in_op: ops.len(), image: capture(&dir) });
+        pending.extend(rec2.shots.lock().drain(..));
+    }
+    drop(m);
+    unregister(&dir);
+    let pre = prefixes(&ops);
+    let final_img = capture(&dir);
+    mon.count("multilog.histories", 1);
+    mon.count(&format!("multilog.rotated_files_at_checkpoint.{rotated_before}"), 1);
+    if let Ok((got, d, m2)) = recover(&final_img, "c06cr").await {
+        judge(mon, "clean-restart", "close-after-checkpoint-over-rotated-logs", &ops, &pre, 0, ops.len(), ops.len(), &got, json!({"rotated_before": rotated_before, "files": final_img.iter().map(|(n, b)| format!("{n}:{}", b.len())).collect::<Vec<_>>()}));
+        drop(m2);
+        let _ = std::fs::remove_dir_all(&d);
+    }
+    let mut nth: std::collections::HashMap<String, usize> = std::collections::HashMap::new();
+    for shot in pending {
+        if mon.time_up() {
+            break;
+        }
+        let k = nth.entry(shot.hook.clone()).or_insert(0);
+        let occurrence = *k;
+        *k += 1;
+        if let Ok((got, d, m2)) = recover(&shot.image, "c06cs").await {
+            mon.count(&format!("crash_points.{}", shot.hook), 1);
+            let hook = format!("{}@rotated-logs>=2", shot.hook);
+            let left: Vec<String> = shot.image.iter().filter(|(n, _)| is_wal(n)).map(|(n, b)| format!("{n}:{}", b.len())).collect();
+            judge(mon, "crash", &hook, &ops, &pre, 0, shot.in_op, shot.in_op, &got, json!({"rotated_before": rotated_before, "occurrence_of_hook": occurrence, "logs_left": left}));
+            drop(m2);
+            let _ = std::fs::remove_dir_all(&d);
+        }
+    }
+    let _ = std::fs::remove_dir_all(&dir);
+}
+
 fn main() {
     let mon = Monitor::new("C06", "fault_enumeration");
+    // supplementary sanitizer lanes (thorough tier): built and run alongside the behavioural workload, joined before the verdict
+    let lanes = checks::lanes::start(&mon, &[("miri", "pstate", "0..4")]);
     mon.set_rule("case = one (operation history, crash point[, truncation of the last log record]) recovery by a fresh manager; non-trivial when >=1 operation was acknowledged before the point; distinct by (judgement kind, hook name / truncation class, op kinds in the history)");
     mon.assume("process-death model: the directory as it is at an instrumented instant, plus torn last records; no fsync/power-loss ordering is observable here");
     mon.assume("std::fs::File is unbuffered, so every flush policy leaves the same bytes at process death; all are judged as flush-always");
@@ -425,6 +507,13 @@ fn main() {
                     break;
                 }
                 rotation_boundary(&mon, &mut rng).await;
+            }
+            // targeted: a checkpoint taken over 2-3 rotated logs, every step a crash point
+            for _ in 0..mon.by_tier(1, 12) {
+                if mon.spent(0.45) {
+                    break;
+                }
+                checkpoint_over_rotated_logs(&mon, &mut rng).await;
             }
             let longs = if mon.quick() { if i < 2 { 1 } else { 0 } } else { long_per_shard };
             let longs_first = i % 2 == 0;
@@ -454,6 +543,6 @@ fn main() {
     });
     scratch_cleanup();
     // supplementary sanitizer lane (thorough): open/upsert/batch/checkpoint/reopen under Miri
-    checks::lanes::run(&mon, "miri", "pstate", "0..2");
+    checks::lanes::join(&mon, lanes);
     mon.finish();
 }
